@@ -792,7 +792,8 @@ def gen_dag_model(draw, ncells=(4, 7), items=True, uncached=True, none_points=Fa
     ppath = None
     if items and draw(st.booleans()):
         emit(["new_space", [], "P", None, None])
-        emit(["set_formula", ["P"], {"params": [["p", None]], "ret": None, "form": "lambda"}])
+        emit(["set_formula", ["P"], {"params": [["p", None]], "ret": None,
+                                     "form": draw(st.sampled_from(["lambda", "def"])), "failtag": "PF_"}])
         ppath = ["P"]
         paths.append(ppath)
     emit(["set_ref", [], "g0", ["v", draw(small_int())], None])
